@@ -7,6 +7,7 @@ import (
 
 	"verifharness/internal/fw"
 	"verifharness/internal/proto"
+	"verifharness/internal/ref"
 )
 
 // crashSig returns a signature if the result shows a crash (panic caught in the worker or a dead worker).
@@ -142,4 +143,29 @@ func errKey(msg string) string {
 		}
 	}
 	return truncKey(strings.TrimSpace(c), 48)
+}
+
+// Known finding D27 (see DESIGN §5): jsight-schema-core snapshots the example of a regex user type every time the type is
+// added to a schema (each call advances a per-type generator) and merges type tables in map order when a union ('|' or
+// the 'or' rule) is involved, so the example strings embedded in a catalog can differ from build to build. Everything
+// else in the catalog is stable. regexUnionProject recognises the input class; exampleOnlyDiff the symptom.
+func regexUnionProject(files map[string][]byte) bool {
+	regex, union := false, false
+	for _, b := range files {
+		s := string(b)
+		if strings.Contains(s, "regex") {
+			regex = true
+		}
+		if strings.Contains(s, "|") || strings.Contains(s, "or:") || strings.Contains(s, "or :") {
+			union = true
+		}
+	}
+	return regex && union
+}
+
+const sigRegexExample = "regex-type-example-through-union"
+
+// exampleOnlyDiff: two catalogs of a regex+union project that differ only inside "example" strings.
+func exampleOnlyDiff(a, b []byte, files map[string][]byte) bool {
+	return regexUnionProject(files) && ref.OnlyExamplesDiffer(a, b)
 }
